@@ -1,4 +1,4 @@
 SPECIFICATION TSpec
-INVARIANTS C19Profile C19Abstraction C19Names C08Ref C08Named C01Parse
+INVARIANTS C19Profile C19Abstraction C19Names C19Flat C08Ref C08Named C01Parse
 POSTCONDITION Accepted
 CHECK_DEADLOCK FALSE
